@@ -245,6 +245,16 @@ func isDefineStmt(stmt ast.Stmt) bool {
 	return ok && assign.Tok == token.DEFINE
 }
 
+// whether the stmt list declares a variable / const / type in its own scope
+func declaresVar(stmts []ast.Stmt) bool {
+	for _, stmt := range stmts {
+		if isDefineStmt(stmt) || instanceof[*ast.DeclStmt](stmt) {
+			return true
+		}
+	}
+	return false
+}
+
 func identicalWithoutTypeParam(x, y types.Type) bool {
 	unwrapTyParam := func(ty types.Type) types.Type {
 		if named, ok := ty.(*types.Named); ok {
